@@ -264,6 +264,30 @@ def main(argv=None):
                                                       "the threaded compute up to 30 times"})
                         emit({"t": "violation", "run": i, "replay": path, "signature": sig, "violation": v,
                               "op": case["op"]})
+            if sim.rng_tasks and case.get("pair") and ("rng", case["op"]) not in threads_done and o["status"] == "ok":
+                # a task changed numpy's global RNG state: process-global state inside tasks that the threaded
+                # scheduler runs concurrently.  Atomic-task simulation cannot interleave them: labelled fallback.
+                threads_done.add(("rng", case["op"]))
+                from . import realthreads
+                found, tinfo = realthreads.dask_threads_pair_differential(case, P.compare)
+                C["real_thread_differentials"] += 1
+                notes["probe=task-changes-global-rng op=%s" % case["op"]] += 1
+                if found is not None:
+                    v, pc = found
+                    sig = P.signature(pc, v)
+                    if findings.match(known, a.prop, sig) is None and nviol < a.max_violations:
+                        nviol += 1
+                        os.makedirs(a.outdir, exist_ok=True)
+                        path = os.path.join(a.outdir, "%s-s%d-r%d-threads-pair.json" % (a.prop, a.seed, i))
+                        util.dump_file(path, {"property": a.prop, "engine": "real_threads", "pair_mode": True, "case": pc,
+                                              "workers": 8, "violation": v, "signature": sig, "rng_tasks": sim.rng_tasks[:3],
+                                              "info": dict(info, run=i),
+                                              "note": "real dask.threaded executions of two lazy results in one compute, "
+                                                      "not simulation; replay repeats it up to 30 times"})
+                        emit({"t": "violation", "run": i, "replay": path, "signature": sig, "violation": v,
+                              "op": case["op"]})
+            elif sim.rng_tasks:
+                notes["probe=task-changes-global-rng op=%s" % case["op"]] += 1
             if run_no == 1 and want_fault and sim.step > 0:
                 k = frng.randrange(sim.step)
                 kind = frng.choice(["abort_before", "abort_after"])
